@@ -979,7 +979,7 @@ impl Workload {
 
 // taken from std:
 // <https://github.com/rust-lang/rust/blob/d5a82bbd26e1ad8b7401f6a718a9c57c96905483/library/std/src/panicking.rs#L247-L253>
-fn get_panic_message(msg: Box<dyn std::any::Any + Send + 'static>) -> String {
+pub(crate) fn get_panic_message(msg: Box<dyn std::any::Any + Send + 'static>) -> String {
     match msg.downcast_ref::<&'static str>() {
         Some(s) => s.to_string(),
         None => match msg.downcast_ref::<String>() {
